@@ -48,9 +48,18 @@ def chart_entry(ch):
     return {"on": on, "toks": ts, "addrs": [toktext(t) for t in ts], "kinds": kinds}
 
 
+def cell_entry(k, cell):
+    """(s, r, c, tokens[, members]): with members [(r, c), ..] the cell is the master of shared-formula group k"""
+    s, r, c, t = cell[:4]
+    members = cell[4] if len(cell) > 4 else []
+    return {"s": s, "r": r, "c": c, "toks": t, "f": render(t), "si": k, "members": [{"r": mr, "c": mc} for mr, mc in members]}
+
+
 def wb_case(cells, steps, names=(), charts=(), sheets=SHEETS):
+    entries = [cell_entry(k, cell) for k, cell in enumerate(cells)]
     return {"kind": "wb", "sheets": list(sheets),
-            "cells": [{"s": s, "r": r, "c": c, "toks": t, "f": render(t)} for s, r, c, t in cells],
+            "load": any(e["members"] for e in entries),      # shared groups only exist in a workbook read from a file
+            "cells": entries,
             "names": [{"on": on, "name": nm, "tok": t, "addr": toktext(t)} for on, nm, t in names],
             "charts": [chart_entry(ch) for ch in sorted(charts, key=lambda x: x[0])],
             "steps": [{"a": a, "s": s, "ax": ax, "p": p, "n": n} for a, s, ax, p, n in steps]}
@@ -59,7 +68,8 @@ def wb_case(cells, steps, names=(), charts=(), sheets=SHEETS):
 def from_replay(rp):
     init = rp[0]
     charts = sorted(init["charts"], key=lambda x: x["on"])
-    return {"kind": "wb", "sheets": init["sheets"], "cells": init["cells"], "names": init["names"], "charts": charts,
+    cells = [dict(x, si=x.get("si", k), members=x.get("members", [])) for k, x in enumerate(init["cells"])]
+    return {"kind": "wb", "sheets": init["sheets"], "load": False, "cells": cells, "names": init["names"], "charts": charts,
             "steps": rp[1:]}
 
 
@@ -130,6 +140,20 @@ def exemplars():
                   [("Insert", 2, "col", 2, 1), ("Remove", 2, "row", 5, 2)],
                   [("Remove", 1, "row", 4, 1), ("Insert", 3, "row", 1, 1), ("Insert", 1, "col", 3, 2)]):
         out.append(wb_case([(3, 40, 9, [A7])], steps, [], [combo2, combo3, single]))
+    # shared-formula groups (workbook read from a file): the members carry the master's formula translated to their
+    # position; groups on the edited sheet and on another one, with references into the edited sheet, into their own
+    # sheet (qualified and unqualified) and into a third sheet; insert and remove, rows and columns
+    def group_formula(own):
+        return [ref("S1", False, cellg(1, 5)), tok("op", "*"), tok("num", "2"), plus, ref([], False, cellg(3, 1, True, True)), plus,
+                qref(own, cellg(4, 1)), plus, ref([], False, rectg(1, 6, 2, 8)), plus, qref("O'Brien", cellg(2, 7, False, True))]
+    for own_i in (2, 1):
+        own = SHEETS[own_i - 1]
+        down = (own_i, 1, 6, group_formula(own), [(2, 6), (3, 6)])           # master F1, members F2, F3
+        right = (own_i, 12, 6, group_formula(own), [(12, 7), (12, 8)])       # master F12, members G12, H12
+        lone = (3, 2, 2, [ref("S1", False, cellg(1, 5)), plus, A7])
+        for steps in ([("Insert", 1, "row", 2, 3)], [("Insert", 1, "col", 1, 2)], [("Remove", 1, "row", 2, 2)],
+                      [("Remove", 1, "col", 3, 1)], [("Insert", 2, "row", 1, 1), ("Insert", 1, "row", 6, 1), ("Insert", 3, "col", 2, 1)]):
+            out.append(wb_case([down, right, lone], steps))
     return out
 
 
@@ -170,9 +194,19 @@ def random_cases(rng, count, depth_max):
             used.add((s, r, c))
             toks = c09.random_formula(rng, depth=rng.randint(1, depth_max), sheets=sheets, own=sheets[s - 1], small=small,
                                       max_ws=3, allow=("apos", "trail"))
-            cells.append((s, r, c, toks))
+            members = []
+            if not far and rng.random() < 0.3:          # master of a shared-formula group: members below or to the right
+                down = rng.random() < 0.6
+                for d in range(1, rng.choice([1, 2, 3]) + 1):
+                    m = (r + d, c) if down else (r, c + d)
+                    if (s,) + m in used:
+                        break
+                    used.add((s,) + m)
+                    members.append(m)
+            cells.append((s, r, c, toks, members))
+        has_groups = any(cl[4] for cl in cells)
         names, charts = [], []
-        for k in range(rng.choice([0, 0, 1, 2, 3])):
+        for k in range(0 if has_groups else rng.choice([0, 0, 1, 2, 3])):      # (loaded workbooks: formula cells only)
             target = rng.choice(sheets)
             g = c09.Gen(rng, small=small).geometry()
             if g["k"] not in ("cell", "rect"):
@@ -182,7 +216,7 @@ def random_cases(rng, count, depth_max):
                 continue
             names.append((on, "" if on == 0 else f"N{k + 1}", qref(target, g)))
         chartable = [s for s in sheets if "'" not in s and "-" not in s]
-        if chartable and rng.random() < 0.35:
+        if chartable and not has_groups and rng.random() < 0.35:
             ts = []
             for _k in range(rng.choice([1, 2])):
                 target = rng.choice(chartable)
@@ -210,12 +244,13 @@ def random_cases(rng, count, depth_max):
         # histories: positions next to the coordinates the formulas mention; `top` bounds every occupied or
         # referenced line from above (raised by every edit: chart series grow even under removal, C08-KF12)
         top = {}
-        alltoks = [(t, sheets[s - 1]) for s, _r, _c, t in cells] + [([n[2]], "") for n in names] + [(ch[1], "") for ch in charts]
+        alltoks = [(cl[3], sheets[cl[0] - 1]) for cl in cells] + [([n[2]], "") for n in names] + [(ch[1], "") for ch in charts]
         for si, sh in enumerate(sheets, 1):
             for ax in ("row", "col"):
                 vals = [v for t, own in alltoks for v in coords_of(t, own, sh, ax)]
-                vals += [(r if ax == "row" else c) for s, r, c, _t in cells if s == si]
-                top[(si, ax)] = (max(vals) if vals else 1, sorted(set(vals)))
+                vals += [(cl[1] if ax == "row" else cl[2]) for cl in cells if cl[0] == si]
+                # members of a group sit up to 3 lines further and their references are translated by as much
+                top[(si, ax)] = ((max(vals) if vals else 1) + (3 if has_groups else 0), sorted(set(vals)))
         steps = []
         for _k in range(rng.choice([1, 1, 2, 3, 4])):
             si = rng.randint(1, len(sheets))
@@ -338,7 +373,7 @@ def run(chk):
     chk.nontrivial = {json.dumps([[x["s"], x["r"], x["c"], x["f"]] for x in c["cells"]] + c["steps"], sort_keys=True) for c in allc}
     chk.rule = ("a case is a workbook (2-3 sheets incl. 'My Sheet' and O'Brien, 1-3 formula cells, defined names on sheets and at "
                 "workbook level, single-kind and combination charts whose series of every kind are read back) plus a history of 1-4 workbook-level insert/remove row/column edits; cases = fixed "
-                "exemplars (incl. intersections with function-call / parenthesised / name operands and 2- and 3-kind "
+                "exemplars (incl. shared-formula groups of a workbook saved to memory and read back, intersections with function-call / parenthesised / name operands and 2- and 3-kind "
                 "combination charts), every depth-1 behaviour of the bounded TLC model (thorough: + depth 2) and seeded random workbooks with "
                 "formulas of depth <= 4 (thorough: 6) edited next to the mentioned coordinates and at the grid limits; distinct = "
                 "different (formulas, history); evaluations = (formula cells + names + charts) x steps judged")
